@@ -84,6 +84,8 @@ def kind_tokens(kind, r):
         "v6-with-word": (" ", [("peer", None), (r.choice(["2001:db8:42::cafe:1", "2001:db8::cafe", "cafe:1::2"]), "ip|word")]),
         "resv-word": (r.choice(["", " "]), [("no", None), (r.choice(["ip", "ipv6", "ipaddr"]), None), (r.choice(["address", "ipaddr", "address-family"]), None)]),
         "key-quoted-twice": ("", [("key", None), ('"%s"' % sec.replace('"', "x"), "pwd"), ("comment", None), ('"lab', None), ('link"', None), ("primary", None)]),
+        "doubled-enclosers": (r.choice(["", " "]), [("description", None), ('""', None), ("{{", None), ("name", None), ("}}", None), ("[[x]]", None), (r.choice(["'';", '"";', ";;", "}},"]), None)]),
+        "edge-unicode-space": (r.choice(["\x0c", "\xa0 ", "\u3000", " \x0b", "\u2003"]), [("description", None), ("uplink-to-core", None)]),
         "v4-mask-zeros": (" ", [("netmask", None), (v4, "ip"), (r.choice(["255.255.255.000", "000.000.000.255", "255.255.000.000"]), None)]),
     }
     return table[kind]
@@ -93,7 +95,9 @@ def render(kind, r, eol):
     lead, toks = kind_tokens(kind, r)
     seps = [r.choice([" ", " ", "  ", " \t"]) for _ in toks]
     body = lead + "".join(t + (seps[i] if i < len(toks) - 1 else "") for i, (t, _) in enumerate(toks))
-    if toks:
+    if kind == "edge-unicode-space":
+        body += r.choice(["\xa0", "\x0c", " \u3000", "\x0b "])        # white space of other kinds at the END of the line
+    elif toks:
         body += r.choice(["", "", " ", "\t"])
     return body + eol, toks
 
